@@ -154,12 +154,14 @@ Qed.
 Lemma rest_names_g baddir fs f m t : forall names st, inv Q (rest_names baddir fs f m t names st).
 Proof.
   induction names as [|x r IH]; intros st; cbn [rest_names]; [exact I|].
+  apply inv_bind; [inv_auto|intros].
   apply inv_bind; [apply rest_param_g|intros; apply IH].
 Qed.
 
 Lemma rest_params_g baddir fs f m : forall ps st, inv Q (rest_params baddir fs f m ps st).
 Proof.
   induction ps as [|p r IH]; intros st; cbn [rest_params]; [exact I|].
+  apply inv_bind; [inv_auto|intros].
   apply inv_bind; [apply rest_names_g|intros; apply IH].
 Qed.
 
@@ -170,8 +172,9 @@ Proof.
   apply inv_bind; [inv_auto|intros].
   apply inv_bind; [apply rest_params_g|intros].
   apply inv_bind; [inv_auto|intros].
-  apply inv_bind; [inv_auto|intros u2 H2].
-  apply inv_bind; [inv_auto|intros u3 H3].
+  apply inv_bind; [inv_auto|intros].
+  apply inv_bind; [inv_auto|intros u2 Hfew].
+  apply inv_bind; [inv_auto|intros u3 Hmany].
   (* from here on 2 <= n <= 3: the three index expressions are in range *)
   assert (Hn : 2 <= List.length vals).
   { destruct (Nat.leb 2 (List.length vals)) eqn:E; [now apply Nat.leb_le in E|discriminate]. }
